@@ -403,7 +403,14 @@ func RunCheck(p *Property, cfg CheckConfig) int {
 	defer os.RemoveAll(tmp)
 
 	fmt.Printf("verifsim: property=%s tier=%s seed=%d workers=%d\n", p.ID, cfg.Tier, cfg.Seed, cfg.Workers)
-	const hashFirst = 4
+	// The first runs of every batch are hashed and re-executed by the determinism self-check.
+	hashFirst := 4
+	if cfg.Tier == Thorough {
+		hashFirst = 32
+	}
+	if s := os.Getenv("VERIF_SELFDET_N"); s != "" {
+		fmt.Sscanf(s, "%d", &hashFirst)
+	}
 	type proc struct {
 		cmd *exec.Cmd
 		out string
